@@ -41,6 +41,7 @@ type ChainRecord struct {
 	InitDigest     string                 `json:"init_digest"`
 	Reqs           [][]byte               `json:"reqs"`
 	Digests        []BlockDigest          `json:"digests"`
+	Resps          [][]byte               `json:"resps"` // full responses, to explain a divergence
 	Interesting    []bool                 `json:"interesting"`
 }
 
@@ -49,12 +50,27 @@ func sha(bz []byte) string {
 	return hex.EncodeToString(h[:])
 }
 
+// detTxResults strips the two free-text fields of a transaction result (Log, Info). They are outside consensus (CometBFT hashes
+// Code, Data, GasWanted and GasUsed only) and are not among the results C18 lists; the SDK puts a goroutine stack trace with
+// goroutine ids and memory addresses into Log when a message handler panics, so they differ between replicas by construction.
+// Code, Codespace, Data, gas and all events are compared.
+func detTxResults(in []*abci.ExecTxResult) []*abci.ExecTxResult {
+	out := make([]*abci.ExecTxResult, len(in))
+	for i, r := range in {
+		c := *r
+		c.Log, c.Info = "", ""
+		out[i] = &c
+	}
+	return out
+}
+
 func digestBlock(res *abci.ResponseFinalizeBlock) BlockDigest {
-	d := BlockDigest{All: DigestResponse(res), AppHash: hex.EncodeToString(res.AppHash)}
+	all := *res
+	all.TxResults = detTxResults(res.TxResults)
+	d := BlockDigest{All: sha(mustMarshal(&all)), AppHash: hex.EncodeToString(res.AppHash)}
 	vu := &abci.ResponseFinalizeBlock{ValidatorUpdates: res.ValidatorUpdates}
 	d.ValUpd = sha(mustMarshal(vu))
-	tr := &abci.ResponseFinalizeBlock{TxResults: res.TxResults}
-	d.TxRes = sha(mustMarshal(tr))
+	d.TxRes = sha(mustMarshal(&abci.ResponseFinalizeBlock{TxResults: detTxResults(res.TxResults)}))
 	ev := &abci.ResponseFinalizeBlock{Events: res.Events}
 	d.Events = sha(mustMarshal(ev))
 	return d
@@ -63,6 +79,7 @@ func digestBlock(res *abci.ResponseFinalizeBlock) BlockDigest {
 func (r *ChainRecord) add(req *abci.RequestFinalizeBlock, res *abci.ResponseFinalizeBlock) {
 	r.Reqs = append(r.Reqs, mustMarshal(req))
 	r.Digests = append(r.Digests, digestBlock(res))
+	r.Resps = append(r.Resps, mustMarshal(res))
 	ibc := false
 	for _, ev := range res.Events {
 		if ev.Type == "send_packet" || ev.Type == "write_acknowledgement" {
@@ -110,6 +127,55 @@ type ReplicaDiff struct {
 	Chain  string `json:"chain"`
 	Block  int    `json:"block"` // -1 = InitChain
 	Fields string `json:"fields"`
+	Detail string `json:"detail,omitempty"`
+}
+
+// explainDiff locates the first differing element between the recorded and the replica's response.
+func explainDiff(orig []byte, got *abci.ResponseFinalizeBlock) string {
+	var o abci.ResponseFinalizeBlock
+	if len(orig) == 0 || o.Unmarshal(orig) != nil {
+		return ""
+	}
+	evDiff := func(where string, a, b []abci.Event) string {
+		if len(a) != len(b) {
+			return fmt.Sprintf("%s: %d events recorded, %d on the replica", where, len(a), len(b))
+		}
+		for i := range a {
+			if sha(mustMarshal(&abci.ResponseFinalizeBlock{Events: a[i : i+1]})) != sha(mustMarshal(&abci.ResponseFinalizeBlock{Events: b[i : i+1]})) {
+				return fmt.Sprintf("%s: event %d differs: recorded=%v replica=%v", where, i, a[i], b[i])
+			}
+		}
+		return ""
+	}
+	if len(o.TxResults) != len(got.TxResults) {
+		return fmt.Sprintf("%d tx results recorded, %d on the replica", len(o.TxResults), len(got.TxResults))
+	}
+	for i := range o.TxResults {
+		a, b := o.TxResults[i], got.TxResults[i]
+		switch {
+		case a.Code != b.Code || a.Codespace != b.Codespace:
+			return fmt.Sprintf("tx %d: code %s/%d recorded, %s/%d on the replica (logs %q / %q)", i, a.Codespace, a.Code, b.Codespace, b.Code, a.Log, b.Log)
+		case a.GasUsed != b.GasUsed || a.GasWanted != b.GasWanted:
+			return fmt.Sprintf("tx %d: gas used %d recorded, %d on the replica", i, a.GasUsed, b.GasUsed)
+		case string(a.Data) != string(b.Data):
+			return fmt.Sprintf("tx %d: data differs", i)
+		}
+		if d := evDiff(fmt.Sprintf("tx %d", i), a.Events, b.Events); d != "" {
+			return d
+		}
+	}
+	if d := evDiff("block", o.Events, got.Events); d != "" {
+		return d
+	}
+	if len(o.ValidatorUpdates) != len(got.ValidatorUpdates) {
+		return fmt.Sprintf("%d validator updates recorded, %d on the replica", len(o.ValidatorUpdates), len(got.ValidatorUpdates))
+	}
+	for i := range o.ValidatorUpdates {
+		if o.ValidatorUpdates[i].String() != got.ValidatorUpdates[i].String() {
+			return fmt.Sprintf("validator update %d: recorded=%v replica=%v", i, o.ValidatorUpdates[i], got.ValidatorUpdates[i])
+		}
+	}
+	return ""
 }
 
 // ReplayRecord re-executes a chain record on a fresh application instance (no probes, no decorated keepers)
@@ -202,7 +268,14 @@ func ReplayRecord(rec *ChainRecord, withQueries bool) (*ReplicaDiff, int, error)
 			if d.Events != rec.Digests[i].Events {
 				f += "events "
 			}
-			return &ReplicaDiff{Chain: rec.ChainID, Block: i, Fields: f}, n, nil
+			if f == "" {
+				f = "other-response-fields"
+			}
+			det := ""
+			if i < len(rec.Resps) {
+				det = explainDiff(rec.Resps[i], res)
+			}
+			return &ReplicaDiff{Chain: rec.ChainID, Block: i, Fields: f, Detail: det}, n, nil
 		}
 		if _, err := app.Commit(); err != nil {
 			return nil, n, err
